@@ -141,24 +141,32 @@ pub fn trace(o: &Opts) -> R<()> {
         }
     }
     let intervals: Vec<usize> = if thorough { vec![1, 2, 3, 4, 7, 10, 64, 100, 1000] } else { vec![1, 2, 3, 10, 100] };
-    let lim = Limits {
-        l:    2,
-        f:    2,
-        g:    30_000_000,
-        perm: false,
-    };
     let mut runs = 0usize;
     let mut interrupted = 0usize;
     let mut summary = Vec::new();
     let mut unstable = 0usize;
-    for (name, code) in &progs {
+    // generated programs under both error modes (a stop raised inside an instruction travels through the
+    // VM's error handling, which differs between them); real contracts under the default mode
+    let cases: Vec<(&String, &Vec<u8>, bool)> = progs
+        .iter()
+        .flat_map(|(n, c)| if n.starts_with("real:") { vec![(n, c, false)] } else { vec![(n, c, false), (n, c, true)] })
+        .collect();
+    for (name, code, perm) in cases {
+        let lim = Limits {
+            l: 2,
+            f: 2,
+            g: 30_000_000,
+            perm,
+        };
+        let lim = &lim;
+        let name = &format!("{name}{}", if perm { " (permissive)" } else { "" });
         // the unmonitored result
-        let lazy = analyze(code, &lim, std::rc::Rc::new(LazyWatchdog));
+        let lazy = analyze(code, lim, std::rc::Rc::new(LazyWatchdog));
         let (lazy_class, lazy_layout) = result_class(&lazy);
         // The unmonitored result itself must be stable for "same as unmonitored" to mean anything
         // (order-dependence of the result is C02's business, not C13's).
         let stable = (0..3).all(|_| {
-            let again = analyze(code, &lim, std::rc::Rc::new(LazyWatchdog));
+            let again = analyze(code, lim, std::rc::Rc::new(LazyWatchdog));
             let (c, l) = result_class(&again);
             c == lazy_class && l == lazy_layout
         });
@@ -166,7 +174,7 @@ pub fn trace(o: &Opts) -> R<()> {
             unstable += 1;
         }
         for every in &intervals {
-            let base = monitored(code, &lim, *every, None);
+            let base = monitored(code, lim, *every, None);
             let n = base.polls;
             let same = !stable || (base.class == lazy_class && base.layout == lazy_layout);
             let w = &mut ws[runs % shards];
@@ -189,7 +197,7 @@ pub fn trace(o: &Opts) -> R<()> {
                 v
             };
             for k in &ks {
-                let r = monitored(code, &lim, *every, Some(*k));
+                let r = monitored(code, lim, *every, Some(*k));
                 let w = &mut ws[runs % shards];
                 w.put(&json!({"ev": "wbegin", "I": every, "k": k, "name": name, "hex": hex::encode(code), "polls": n}));
                 for e in &r.events {
